@@ -1042,13 +1042,9 @@ func genC17(r *Rand, idx int, tier string) Case {
 		s.held, s.heldEnd, s.holdMs = 1+r.Intn(3), PickStr(r, "stop", "stop", "close", "unexport"), 300+r.Intn(400)
 		kind = "exact+held-" + s.heldEnd
 		if r.Chance(50) {
-			// two overlapping shutdown calls.  Close || Unexport and Close || Close write AbsfsNFS.exportServer from
-			// both goroutines (a data race in the library itself, which documents no concurrent use of these two): they
-			// are kept out of the -race build of the thorough tier; Stop || Stop and Unexport || Stop touch no plain field.
+			// two overlapping shutdown calls (Close || Unexport and Close || Close raced on AbsfsNFS.exportServer until the
+			// repair recorded in known_findings.txt; the -race build of the thorough tier now guards it)
 			pairs := [][2]string{{"stop", "stop"}, {"stop", "stop"}, {"unexport", "stop"}, {"close", "unexport"}, {"close", "close"}}
-			if tier == "thorough" {
-				pairs = pairs[:3]
-			}
 			pr := pairs[r.Intn(len(pairs))]
 			s.heldEnd, s.heldEnd2, s.gapMs = pr[0], pr[1], 50+r.Intn(100)
 			kind = "exact+held-" + pr[0] + "||" + pr[1]
